@@ -1,13 +1,68 @@
-import JanetModel.Wait.Model
+import JanetModel.Wait.Interp
 import Driver.Util
 /- Line-protocol driver for the C07 wait model: folds `step` over operation lines, reports every executed task.
    cfg <11 x 0/1> | reset | spawn f | give f c v ch | take f c ch | close c | cancel f code | sleep f us | timeout f us |
    deadline f b us | bodystart b | bodydone b | dead f | advance dt | timers | run | chan c -/
 open JanetModel.Wait
 
+open JanetModel.Wait.Interp in
 structure DS where
   cfg : Cfg := Cfg.full
   w : World := {}
+  sc : IS := {}            -- scenario being defined (`new` … `run`)
+  cur : Option Nat := none -- fiber whose statements are being read
+
+namespace Scn
+open JanetModel.Wait.Interp
+
+def intern (a : Array String) (x : String) : Array String × Nat :=
+  match indexOf a x with
+  | some i => (a, i)
+  | none => (a.push x, a.size)
+
+def chanIdx (s : IS) (x : String) : Nat := (indexOf s.chans x).getD 999
+def fibIdx (s : IS) (x : String) : Nat := ((s.fibers.toList.map (·.name)).findIdx? (· == x)).getD 999
+
+partial def parseClauses (s : IS) : Nat → List String → List Clause → IS × List Clause × List String
+  | 0, toks, acc => (s, acc.reverse, toks)
+  | k + 1, "t" :: c :: rest, acc => parseClauses s k rest (.take (chanIdx s c) :: acc)
+  | k + 1, "g" :: c :: v :: rest, acc =>
+      let (kws, i) := intern s.kws v
+      parseClauses { s with kws := kws } k rest (.give (chanIdx s c) i :: acc)
+  | _, toks, acc => (s, acc.reverse, toks)
+
+partial def parseWait (s : IS) : List String → IS × Wait
+  | "sleep" :: us :: _ => (s, .sleep us.toNat!)
+  | "take" :: c :: _ => (s, .take (chanIdx s c))
+  | "give" :: c :: v :: _ =>
+      let (kws, i) := intern s.kws v
+      ({ s with kws := kws }, .give (chanIdx s c) i)
+  | "select" :: k :: rest =>
+      let (s, cl, _) := parseClauses s k.toNat! rest []
+      (s, .select cl)
+  | "deadline" :: us :: rest =>
+      let (s, inner) := parseWait s rest
+      (s, .deadline us.toNat! inner)
+  | _ => (s, .sleep 0)
+
+def parseStmt (s : IS) : List String → IS × Option Stmt
+  | "w" :: rest => let (s, w) := parseWait s rest; (s, some (.w w))
+  | ["close", c] => (s, some (.close (chanIdx s c)))
+  | ["cancel", f, m] =>
+      let (msgs, i) := intern s.msgs m
+      ({ s with msgs := msgs }, some (.cancel (fibIdx s f) i))
+  | ["spawn", f] => (s, some (.spawn (fibIdx s f)))
+  | ["dump", t] => (s, some (.dump t))
+  | ["count", c] => (s, some (.count (chanIdx s c)))
+  | _ => (s, none)
+
+def runScenario (s : IS) : String :=
+  let m := fibIdx s "M"
+  let s := { s with w := step s.cfg s.w (.spawn m), fibers := s.fibers.modify m fun fb => { fb with spawned := true } }
+  let s := loop s 100000
+  "\t".intercalate s.out.toList
+
+end Scn
 
 def showVal : Val → String
   | .nil => "nil"
@@ -31,9 +86,27 @@ def showPending (w : World) (l : List Pending) : String :=
 def stepLine (s : DS) (toks : List String) : DS × String :=
   let op (o : Op) : DS × String := ({ s with w := step s.cfg s.w o }, "ok")
   match toks with
-  | ["cfg", a1, a2, a3, a4, a5, a6, a7, a8, a9, a10, a11] =>
-      ({ s with cfg := ⟨b a1, b a2, b a3, b a4, b a5, b a6, b a7, b a8, b a9, b a10, b a11⟩ }, "ok")
+  | ["cfg", a1, a2, a3, a4, a5, a6, a7, a8, a9, a10, a11, a12, a13] =>
+      ({ s with cfg := ⟨b a1, b a2, b a3, b a4, b a5, b a6, b a7, b a8, b a9, b a10, b a11, b a12, b a13⟩ }, "ok")
   | ["reset"] => ({ s with w := {} }, "ok")
+  | ["new", _] => ({ s with sc := { cfg := s.cfg }, cur := none }, "ok")
+  | ["chan", name, cap] =>
+      let sc := s.sc
+      let i := sc.chans.size
+      ({ s with sc := { sc with chans := sc.chans.push name, w := { sc.w with chans := set sc.w.chans i { limit := cap.toNat! } } } }, "ok")
+  | ["fiber", name, _] =>
+      let sc := s.sc
+      ({ s with sc := { sc with fibers := sc.fibers.push { name := name } }, cur := some sc.fibers.size }, "ok")
+  | "s" :: rest =>
+      match s.cur with
+      | none => (s, "error no-fiber")
+      | some f =>
+        match Scn.parseStmt s.sc rest with
+        | (sc, some st) => ({ s with sc := { sc with fibers := sc.fibers.modify f fun fb => { fb with prog := fb.prog ++ [st] } } }, "ok")
+        | (_, none) => (s, "error bad-stmt")
+  | ["run"] =>
+      if s.sc.fibers.size > 0 then (s, Scn.runScenario s.sc)
+      else (s, "idle")
   | ["spawn", f] => op (.spawn (n f))
   | ["give", f, c, v, ch] => op (.give (n f) (n c) (.kw (n v)) (b ch))
   | ["take", f, c, ch] => op (.take (n f) (n c) (b ch))
@@ -47,7 +120,7 @@ def stepLine (s : DS) (toks : List String) : DS × String :=
   | ["dead", f] => op (.fiberDead (n f))
   | ["advance", dt] => op (.advance (n dt))
   | ["timers"] => op .timers
-  | ["run"] =>
+  | ["runop"] =>
       let w' := step s.cfg s.w .run
       let out :=
         if s.w.queue.isEmpty then "idle"
